@@ -78,6 +78,14 @@ def build(case):
   spec = gen.make_spec(cfg)
   for t in spec["tendons"]:
     t.pop("armature", None)
+  # purely polynomial damping (linear coefficient exactly 0, higher-order terms present) on a third of the damped joints/tendons:
+  # a "nothing to do if damping == 0" shortcut must look at all coefficients (deterministic from the generator seed)
+  k = int(cfg["seed"])
+  for el in [j for b in spec["bodies"] for j in b["joints"]] + spec["tendons"]:
+    if el.get("dampingpoly") and any(el["dampingpoly"]):
+      k += 1
+      if k % 3 == 0:
+        el["damping"] = 0.0
   return spec
 
 
